@@ -79,6 +79,7 @@ class ClosureSpec:
     ret: Optional[str]
     block: ClauseBlock
     vc_line: int
+    proof: str = ''
 
 
 @dataclass
@@ -247,7 +248,10 @@ def parse_vc(path: str, text: str) -> List[FnContract]:
                     i += 2
                 else:
                     raise ContractError('%s:%d: bad @closure arg %r' % (path, ln0, a[i]))
-            cur.closures[k] = ClosureSpec(k, params, ret, _parse_clause_block(body, path, cur.serves, 'closure%d.' % k), ln0)
+            proof_lines = [l.split('proof:', 1)[1].strip() for _, l in body if l.strip().startswith('proof:')]
+            body = [(ln, l) for ln, l in body if not l.strip().startswith('proof:')]
+            cur.closures[k] = ClosureSpec(k, params, ret, _parse_clause_block(body, path, cur.serves, 'closure%d.' % k), ln0,
+                                          ' '.join(proof_lines))
         elif name == 'insert':
             a = _split_quoted(args)
             txt = '\n'.join(l for _, l in body) + '\n'
